@@ -80,6 +80,7 @@ impl<R: io::Read> Reader<R> {
             return Err(Error::InvalidLen)
         }
         self.buffer.clear();
+        self.buffer.reserve_exact(len);
         self.buffer.resize(len, 0u8);
         self.reader.read_exact(&mut self.buffer)?;
         minicbor::decode_with(&self.buffer, ctx).map_err(Error::Decode).map(Some)
